@@ -1,7 +1,7 @@
 /-
 C02 — byte-level lemmas: chunked backward line reader, cross-reference stream rows.
 -/
-import PdfVerif.Model.Xref
+import PdfVerif.Spec.XrefWrite
 
 namespace PdfVerif.Xref
 
@@ -193,19 +193,6 @@ theorem revLoop_spec (bufsiz : Nat) (hb : 1 ≤ bufsiz) (data : Bytes) (fuel pos
 
 /-! ### Cross-reference stream rows: encoder (the writer's side) and decoding lemmas -/
 
-/-- Big-endian, fixed width `w`. -/
-def bePack : Nat → Nat → Bytes
-  | 0, _ => []
-  | w + 1, v => bePack w (v / 256) ++ [UInt8.ofNat (v % 256)]
-
-abbrev Row := Nat × Nat × Nat
-
-def encodeRow (w1 w2 w3 : Nat) (r : Row) : Bytes := bePack w1 r.1 ++ (bePack w2 r.2.1 ++ bePack w3 r.2.2)
-
-def encodeRows (w1 w2 w3 : Nat) : List Row → Bytes
-  | [] => []
-  | r :: rs => encodeRow w1 w2 w3 r ++ encodeRows w1 w2 w3 rs
-
 /-- A field value can be written in width `w`: it fits, or the width is 0 and the value is the
 default that `nunpack` supplies. -/
 def Fits (w dflt v : Nat) : Prop := (w = 0 ∧ v = dflt) ∨ (0 < w ∧ v < 256 ^ w)
@@ -315,23 +302,6 @@ theorem rowType_eq_row (x : XStream) (i : Nat) : x.rowType i = (x.row i).1 := by
   simp [XStream.rowType, XStream.row, objidsTypeDefault, typeDefault]
 
 /-! Range-by-range specification of `/Index`: the first `c` rows belong to the first range. -/
-
-def rowSpec : List (Nat × Nat) → List Row → Nat → Option Row
-  | [], _, _ => none
-  | (s, c) :: rest, rows, n => if s ≤ n ∧ n < s + c then rows[n - s]? else rowSpec rest (rows.drop c) n
-
-def objidsSpec : List (Nat × Nat) → List Row → List Nat
-  | [], _ => []
-  | (s, c) :: rest, rows =>
-    ((List.range c).filterMap (fun i =>
-        match rows[i]? with
-        | some r => if inUseType r.1 then some (s + i) else none
-        | none => none))
-      ++ objidsSpec rest (rows.drop c)
-
-def sumCounts : List (Nat × Nat) → Nat
-  | [] => 0
-  | (_, c) :: rest => c + sumCounts rest
 
 theorem findIndex_rowSpec (ranges : List (Nat × Nat)) (rows : List Row) (n acc : Nat) :
     (findIndex ranges n acc).bind (fun i => rows[i]?) = rowSpec ranges (rows.drop acc) n := by
